@@ -337,7 +337,8 @@ def gen(rng, tier):
     res = os.path.join(core.REPO, "test", "resource", "tlv")
     samples = [f for f in sorted(os.listdir(res)) if f.endswith(".ksig")] if os.path.isdir(res) else []
     rng.shuffle(samples)
-    for f in samples[:12 if not big else 60]:
+    always = [f for f in samples if "metadata" in f or "padding" in f]      # among them inputs in non-minimal encoding
+    for f in always + [f for f in samples if f not in always][:12 if not big else 60]:
         raw = open(os.path.join(res, f), "rb").read()
         if len(raw) > 12000:
             continue
